@@ -198,8 +198,9 @@ func (c *strmChain) freshSet() *unspent.OutputSet {
 // sequentially applying the first k blocks of the range (the reference of utxo_scan_eq_sequential)
 func (c *strmChain) sequential(k int) string { return c.sequentialFor(k, c.watched) }
 
-func (c *strmChain) sequentialFor(k int, watched [][]byte) string {
-	s := c.freshSet()
+func (c *strmChain) sequentialFor(k int, watched [][]byte) string { return c.sequentialFrom(c.freshSet(), k, watched) }
+
+func (c *strmChain) sequentialFrom(s *unspent.OutputSet, k int, watched [][]byte) string {
 	for i := 0; i < k; i++ {
 		s.UpdateFromBlock(c.blks[c.at(i)], watched)
 	}
@@ -228,7 +229,7 @@ func strmParseSpec(f []string) (*strmSpec, error) {
 		return nil, errors.New("spec needs 9 fields")
 	}
 	s := &strmSpec{mode: f[0], faults: map[string]byte{}, fstr: f[6], cancel: f[7], late: -1}
-	if s.mode != "o" && s.mode != "u" && s.mode != "x" && s.mode != "z" {
+	if s.mode != "o" && s.mode != "u" && s.mode != "x" && s.mode != "z" && s.mode != "e" {
 		return nil, errors.New("mode")
 	}
 	from, e1 := strconv.ParseUint(f[1], 10, 32)
@@ -567,6 +568,15 @@ func strmRunOne(s *strmSpec) *strmOutcome {
 	}
 
 	set := chain.freshSet()
+	if s.mode == "e" { // the first scan of a wallet: nothing is known yet
+		set = unspent.NewOutputSet(nil)
+	}
+	startSet := func() *unspent.OutputSet {
+		if s.mode == "e" {
+			return unspent.NewOutputSet(nil)
+		}
+		return chain.freshSet()
+	}
 	watched := chain.watched
 	if s.mode == "z" { // a scan that only prunes: no script to look for (nil and empty alternate)
 		watched = nil
@@ -622,7 +632,7 @@ func strmRunOne(s *strmSpec) *strmOutcome {
 				}
 			}
 		}()
-	case "x", "z":
+	case "x", "z", "e":
 		go func() {
 			err := scanner.UpdateUtxos(ctx, set, watched, s.from, to, uint32(s.p), func(h uint32) {
 				onDelivery(int(int64(h) - int64(s.from)))
@@ -794,13 +804,13 @@ func strmRunOne(s *strmSpec) *strmOutcome {
 		if finished && faulty && !cancelled && sawErr == 0 {
 			fail("a fault was injected (%s) but no call returned an error", s.fstr)
 		}
-	case "x", "z":
+	case "x", "z", "e":
 		if utxoDone {
 			got := strmSetString(set)
 			if utxoErr == nil {
 				if len(delivered) != s.n {
 					fail("FALSE SUCCESS: UpdateUtxos returned nil after %d of %d blocks", len(delivered), s.n)
-				} else if got != chain.sequentialFor(s.n, watched) {
+				} else if got != chain.sequentialFrom(startSet(), s.n, watched) {
 					fail("UTXO set after the scan differs from applying the blocks sequentially")
 				}
 				if faulty {
@@ -810,7 +820,7 @@ func strmRunOne(s *strmSpec) *strmOutcome {
 				if !faulty && !cancelled {
 					fail("no fault and no cancel, but UpdateUtxos returned an error: %v", utxoErr)
 				}
-				if got != chain.sequentialFor(len(delivered), watched) {
+				if got != chain.sequentialFrom(startSet(), len(delivered), watched) {
 					fail("UTXO set after a failed scan differs from applying the %d scanned blocks sequentially", len(delivered))
 				}
 			}
@@ -1404,6 +1414,20 @@ func runC16(r *Runner) string {
 	}
 	cmds = append(cmds, fmt.Sprintf("rand z 410 6 3 0 %d - - - %d %d", seedBase+6, r.rng.Int63n(1<<40), r.N(20, 200)))
 	r.strmBatch(cmds, "scans with no script to look for (nil / empty): they still prune, fail and cancel", 1)
+
+	// 2e. the first scan of a wallet (empty set): later blocks complete first (policy L1), every schedule of a
+	// small range, random schedules of larger ones
+	cmds = nil
+	for p := 2; p <= 4; p++ {
+		for n := 2; n <= 6; n++ {
+			for rep := 0; rep < r.N(2, 6); rep++ {
+				cmds = append(cmds, fmt.Sprintf("run e %d %d %d 0 %d - - L%d", 500+rep, n, p, seedBase+int64(n)+int64(rep), rep%2))
+			}
+		}
+		cmds = append(cmds, fmt.Sprintf("rand e 510 6 %d 0 %d - - - %d %d", p, seedBase+6, r.rng.Int63n(1<<40), r.N(30, 300)))
+	}
+	cmds = append(cmds, fmt.Sprintf("dfs e 520 3 2 0 %d - - - 3000", seedBase+3))
+	r.strmBatch(cmds, "scans that start from an empty set", 1)
 
 	// 3. seeded random schedules of larger configurations
 	cmds = nil
